@@ -189,6 +189,19 @@ def work(task):
             pre = rand_prefix(rnd) if rnd.random() < 0.5 else None
             node, _ = g.program([] if pre is None else [G.U])
             node = with_prefix(pre, node)
+            if i % 16 == 5:
+                # postfix operators stacked on one another (E+?, E*?, E?+, E??, (E+)? ...) over a small step function,
+                # captured, so that the order of the results is part of the value
+                step = rnd.choice([("cat", [("lit", 1, "dec"), ("word", "add"), ("sub", True, (), ("cat", [("word", "dup"), ("lit", rnd.randint(2, 5), "dec"), ("word", "?lt")]))]),
+                                   ("cat", [("word", "elem"), ("sub", True, (), ("cat", [("word", "type"), ("word", "T_SEQ"), ("word", "?eq")]))])])
+                start = ("lit", rnd.randint(0, 2), "dec") if step[1][0][0] == "lit" else ("cap", (), ("alt", [("lit", 1, "dec"), ("cap", (), ("alt", [("lit", 2, "dec"), ("cap", (), ("lit", 3, "dec"))]))]))
+                e = step
+                for op in [rnd.choice(["plus", "star", "opt"]) for _ in range(rnd.randint(2, 3))]:
+                    e = (op, e)
+                if "opt" not in [x for x in (e[0], e[1][0])]:
+                    e = ("opt", e)
+                node = ("cap", (), ("cat", [start, e]))
+                ev.label("stacked-postfix-operators")
             text = render(node)
             try:
                 r0 = run(drv, text)
@@ -241,7 +254,9 @@ def work(task):
                         break
                     vt = render(new)
                     r1 = run(drv, vt)
-                    why = same(r0, r1, False)
+                    # E? and (E,) are the same alternatives in the same order, a raw literal is the same literal: the
+                    # results must come in the same order too; the other rewrites introduce new constructs (compared as multisets)
+                    why = same(r0, r1, rule == "E?=(E,)" or rule.startswith("raw-string"))
                     ev.case(key=(text, rule, vt), nontrivial=nested)
                     ev.label("rewrite:" + rule)
                     if nested:
@@ -332,7 +347,7 @@ def main(tier, seed):
     ev.extra["programs"] = n
     need = ["rewrite:E?=(E,)", "rewrite:if=alt", "rewrite:?(E)=([E]!=[])", "rewrite:infix=?(let)", "rewrite:raw-string",
             "rewrite:raw-string-backslash", "rewrite:raw-string-percent", "rewrite:raw-string-splice", "rewrite:raw-string-mixed",
-            "simplify:fired", "dwarf-values:%d", "dwarf-values:%x", "spelling:esc4", "string:split", "sugar:off", "layout:ws4", "layout:nops0", "layout:nops1"]
+            "simplify:fired", "stacked-postfix-operators", "dwarf-values:%d", "dwarf-values:%x", "spelling:esc4", "string:split", "sugar:off", "layout:ws4", "layout:nops0", "layout:nops1"]
     return finish(PID, tier, seed, ev, RULE, t0,
                   assumptions=["equivalences as stated in doc/syntax.rst; ?(E) vs ([E] != []) only where E ends by pushing a value",
                                "string literals nested inside %( %) keep their backslashes and quotes (in every escape spelling); comments inside %( %) avoid brackets and quotes (known finding)"],
